@@ -20,6 +20,7 @@ import inject  # noqa: E402
 from efoli import EdifactFormat, EdifactFormatVersion  # noqa: E402
 
 from ahbicht.content_evaluation.evaluationdatatypes import EvaluatableData, EvaluatableDataProvider, EvaluationContext  # noqa: E402
+from ahbicht.content_evaluation.evaluators import Evaluator  # noqa: E402
 from ahbicht.content_evaluation.fc_evaluators import FcEvaluator, text_to_be_evaluated_by_format_constraint  # noqa: E402
 from ahbicht.content_evaluation.rc_evaluators import RcEvaluator  # noqa: E402
 from ahbicht.content_evaluation.token_logic_provider import TokenLogicProvider  # noqa: E402
@@ -160,6 +161,35 @@ def _make_rc_method(key: str, is_sync: bool):
 
 for _k in RC_KEYS:
     setattr(HarnessRcEvaluator, f"evaluate_{_k}", _make_rc_method(_k, _k in RC_SYNC_KEYS))
+
+# "redefined" conditions: the class still carries the superseded evaluate_<key> method, the public accessor get_evaluation_method
+# (which the library's own dictionary based evaluators override as well) routes the key to the current implementation
+REDEFINED_RC_KEYS = {"4", "2499"}
+_ROTATE = {"F": "U", "U": "K", "K": "F", "N": "N"}
+
+
+def _make_superseded(key: str):
+    def evaluate(self, evaluatable_data, context):  # pylint:disable=unused-argument
+        world: World = evaluatable_data.body
+        world.anomalies.append(f"the superseded implementation of key {key} was called instead of the one get_evaluation_method returns")
+        return REAL[_ROTATE[world.rc[key]]]
+
+    evaluate.__name__ = f"evaluate_{key}"
+    return evaluate
+
+
+for _k in REDEFINED_RC_KEYS:
+    setattr(HarnessRcEvaluator, f"current_implementation_of_{_k}", _make_rc_method(_k, False))
+    setattr(HarnessRcEvaluator, f"evaluate_{_k}", _make_superseded(_k))
+
+
+def _get_evaluation_method(self, condition_key: str):
+    if condition_key in REDEFINED_RC_KEYS:
+        return getattr(self, f"current_implementation_of_{condition_key}")
+    return Evaluator.get_evaluation_method(self, condition_key)
+
+
+HarnessRcEvaluator.get_evaluation_method = _get_evaluation_method  # type:ignore[method-assign]
 
 
 def _decoy(name):
@@ -308,10 +338,11 @@ def install() -> HarnessTokenLogicProvider:
     return _TLP
 
 
-def fc_table(assignment: Dict[str, bool]) -> Dict[str, Any]:
-    """EvaluatedFormatConstraint objects for evaluate_format_constraint_tree (fresh objects on every call)"""
+def fc_table(assignment: Dict[str, bool], messages: bool = True) -> Dict[str, Any]:
+    """EvaluatedFormatConstraint objects for evaluate_format_constraint_tree (fresh objects on every call);
+    messages=False: unfulfilled constraints carry no message (what the dictionary / ContentEvaluationResult based evaluators hand over)"""
     return {
-        k: EvaluatedFormatConstraint(format_constraint_fulfilled=v, error_message=None if v else f"E{k}")
+        k: EvaluatedFormatConstraint(format_constraint_fulfilled=v, error_message=None if v or not messages else f"E{k}")
         for k, v in assignment.items()
     }
 
@@ -350,16 +381,50 @@ def _provide_cer_data() -> EvaluatableData:
     return EvaluatableData(body=ContentEvaluationResultSchema().dump(cer), edifact_format=FORMAT, edifact_format_version=VERSION)
 
 
-def install_hardcoded(cer) -> None:
-    """create_hardcoded_evaluators(cer): Dict based RC / FC evaluators, hints provider and package resolver"""
+def install_hardcoded(cer, data_format=None, data_version=None) -> None:
+    """create_hardcoded_evaluators(cer): Dict based RC / FC evaluators, hints provider and package resolver.
+    data_format / data_version: the message being evaluated is of ANOTHER format / version than the registered logic"""
     from ahbicht.content_evaluation.evaluator_factory import create_hardcoded_evaluators
     from ahbicht.content_evaluation.token_logic_provider import SingletonTokenLogicProvider
 
     evaluators = create_hardcoded_evaluators(cer, edifact_format=FORMAT, edifact_format_version=VERSION)
+    fmt, ver = data_format or FORMAT, data_version or VERSION
 
     def configure(binder):
         binder.bind(TokenLogicProvider, SingletonTokenLogicProvider([*evaluators]))
-        binder.bind_to_provider(EvaluatableDataProvider, lambda: EvaluatableData(body={}, edifact_format=FORMAT, edifact_format_version=VERSION))
+        binder.bind_to_provider(EvaluatableDataProvider, lambda: EvaluatableData(body={}, edifact_format=fmt, edifact_format_version=ver))
+
+    inject.clear_and_configure(configure)
+
+
+class OneTableForEverythingProvider(TokenLogicProvider):
+    """a user-written provider that serves ONE dictionary based package resolver (created without any format) for every message"""
+
+    def __init__(self, table: Dict[str, Optional[str]]):
+        from ahbicht.expressions.package_expansion import DictBasedPackageResolver
+
+        self.resolver = DictBasedPackageResolver(dict(table))
+
+    def get_rc_evaluator(self, edifact_format=None, format_version=None):
+        return _TLP.rc
+
+    def get_fc_evaluator(self, edifact_format=None, format_version=None):
+        return _TLP.fc
+
+    def get_hints_provider(self, edifact_format=None, format_version=None):
+        return _TLP.hints
+
+    def get_package_resolver(self, edifact_format=None, format_version=None):
+        return self.resolver
+
+
+def install_one_table_provider(table: Dict[str, Optional[str]]) -> None:
+    install()
+    provider = OneTableForEverythingProvider(table)
+
+    def configure(binder):
+        binder.bind(TokenLogicProvider, provider)
+        binder.bind_to_provider(EvaluatableDataProvider, _provide_data)
 
     inject.clear_and_configure(configure)
 
